@@ -47,12 +47,41 @@ def make_scratch(root, dest):
             shutil.copyfile(os.path.join(src, name), os.path.join(dest, 'vermouth', 'data', name))
 
 
+def seeded_variants(prop):
+    """Verified seeded changes stored under /verif/seeded/<prop>_*/ are replayed as broken variants."""
+    out = []
+    base = os.path.join(VERIF, 'seeded')
+    if not os.path.isdir(base):
+        return out
+    for name in sorted(os.listdir(base)):
+        meta = os.path.join(base, name, 'meta.json')
+        patch = os.path.join(base, name, 'patch.diff')
+        if not os.path.isfile(patch) or not os.path.isfile(meta):
+            continue
+        try:
+            with open(meta) as handle:
+                info = json.load(handle)
+        except ValueError:
+            continue
+        props = info.get('caught_by_properties') or [info.get('property')]
+        if prop in props:
+            out.append({'name': 'seeded:' + name, 'expect': 'fire', 'patch': patch, 'edits': []})
+    return out
+
+
 def run_variant(job):
     prop, variant, root = job
     from . import rules
     tmp = tempfile.mkdtemp(prefix='vstat_variant_')
     try:
         make_scratch(root, tmp)
+        if variant.get('patch'):
+            import subprocess
+            proc = subprocess.run(['git', 'apply', '--unsafe-paths', '--directory=' + tmp, variant['patch']], cwd='/', capture_output=True, text=True)
+            if proc.returncode != 0:
+                proc = subprocess.run(['patch', '-p1', '-s', '-f', '-d', tmp, '-i', variant['patch']], capture_output=True, text=True)
+            if proc.returncode != 0:
+                return (variant['name'], 'not-applicable', 'patch does not apply to the current tree', [])
         for edit in variant['edits']:
             path = os.path.join(tmp, edit['file'])
             with open(path, encoding='utf-8') as handle:
@@ -89,7 +118,7 @@ def run_variant(job):
 
 
 def run_for(prop, seed=0, root='/repo', out=print, jobs=None):
-    variants = load_variants(prop)
+    variants = load_variants(prop) + seeded_variants(prop)
     if not variants:
         out('SELFTEST property={} no variants registered'.format(prop))
         return 0
